@@ -11,6 +11,8 @@
 //	nb                                         -> ok | none
 //	prod <nparts> <pick>                       -> accepted | rejected | other:…
 //
+// Client-side ops (rc, sel, e2e, e2eflush; reset modes cinj/creal/e2e; partitioners mn, bc, df): see client.go.
+//
 // hasher: d = nil (the partitioner's default) / KafkaHasher(murmur2); kf = KafkaHasher(fnv32a);
 // sf = SaramaHasher(fnv32a); cf = SaramaCompatHasher(fnv32a).  key: hex, "." empty, "-" nil.
 // hdrs: "_" or "klen:vlen,…"; backups/draws: "_" or comma separated.
@@ -120,6 +122,11 @@ func genBackups(r *hx.Rng, n int) []int64 {
 
 func gen(a hx.Args) {
 	r := hx.NewRng(a.Seed)
+	// first, end to end: the default partitioner on a real cluster, one leader outage per partition of the topic
+	{
+		pool := []string{hx.Hex(genKey(r, 1+r.Intn(12))), hx.Hex(genKey(r, 1+r.Intn(12))), hx.Hex([]byte("franz")), hx.Hex([]byte("kafka"))}
+		genE2EGroup(r, "df", pool, true)
+	}
 	// murmur2: every length 0..64 (nil and empty included), then a few long keys
 	hx.Emit("mm -")
 	hx.Emit("mm .")
@@ -211,6 +218,10 @@ func gen(a hx.Args) {
 				hx.Emit("nb")
 				continue
 			}
+			if r.Chance(8) {
+				hx.Emit("rc %s", genSelKey(r, keyPool))
+				continue
+			}
 			switch k := r.Intn(100); {
 			case k < 50: // same n
 			case k < 75: // shrink (possibly below the pinned partition)
@@ -260,6 +271,8 @@ func gen(a hx.Args) {
 			hx.Emit("p %s %d %s %d %s %s", key, vlen, hdrs, n, backups, csv(draws))
 		}
 	}
+	// the client around the partitioner: RequiresConsistency, doPartition on crafted topics, end to end outages
+	genClient(a, r, keyPool)
 	// doPartition's validation
 	for i := 0; i < a.N(400, 6000); i++ {
 		k := hx.Pick(r, []int64{1, 3, 8})
@@ -381,10 +394,27 @@ func run() {
 		lastN  int64
 		ptype  string
 		defKey = 0
+		cs     clientState
 	)
 	_ = defKey
-	hx.RunLines(30*time.Second, func(t []string) (res string) {
+	hx.RunLines(90*time.Second, func(t []string) (res string) {
 		switch t[0] {
+		case "rc":
+			if cs.tp != nil {
+				return cs.rc(t)
+			}
+			if tp == nil {
+				return "bad-op"
+			}
+			ok := tp.RequiresConsistency(&kgo.Record{Key: hx.UnHex(t[1]), Value: []byte("v")})
+			hx.St.Inc("rc.key." + keyClass(t[1]) + "." + strconv.FormatBool(ok))
+			return strconv.FormatBool(ok)
+		case "sel":
+			return cs.sel(t)
+		case "e2e":
+			return cs.e2eOp(t)
+		case "e2eflush":
+			return cs.e2eFlush()
 		case "mm":
 			b := hx.UnHex(t[1])
 			hx.St.Inc(fmt.Sprintf("mm.len%%4=%d", len(b)%4))
@@ -416,6 +446,11 @@ func run() {
 			}
 			return hx.Itoa(int64(hs([]byte("x"), int(n))))
 		case "reset":
+			if t[2] == "cinj" || t[2] == "creal" || t[2] == "e2e" {
+				tp, src = nil, nil
+				return cs.reset(t)
+			}
+			cs.endGroup()
 			ptype = t[1]
 			var p kgo.Partitioner
 			var hs kgo.PartitionerHasher
